@@ -43,6 +43,8 @@ type Tree struct {
 	gendb   aquadb.Database // holds the state of every generated block
 	Signer  types.Signer
 	Opts    Opts
+	// Contracts lists every contract address created on any branch (WithContracts only).
+	Contracts []common.Address
 }
 
 type Opts struct {
@@ -50,6 +52,18 @@ type Opts struct {
 	MinOffset  int64 // block timestamp offset range relative to the builder's default (parent+10s)
 	MaxOffset  int64
 	ForkFree   bool // use a config without hard forks: difficulty is time-sensitive from block 1
+	// WithContracts (requires WithTxs): some transactions deploy a small storage contract or call one
+	// (SSTORE of calldata[0..32] := calldata[32..64], zero values delete slots), so that states carry
+	// storage tries and code. Off by default; when off no extra random numbers are drawn.
+	WithContracts bool
+}
+
+// contractInit deploys: SSTORE(7, v) then returns the 8-byte runtime `SSTORE(calldata[0], calldata[32]); STOP`.
+func contractInit(v byte) []byte {
+	return []byte{0x60, v, 0x60, 0x07, 0x55, // sstore(7, v)
+		0x67, 0x60, 0x20, 0x35, 0x60, 0x00, 0x35, 0x55, 0x00, // push8 runtime
+		0x60, 0x00, 0x52, // mstore(0, ..)  -> runtime right-aligned in word 0
+		0x60, 0x08, 0x60, 0x18, 0xf3} // return(24, 8)
 }
 
 // ForkFreeConfig is TestChainConfig without scheduled forks.
@@ -107,6 +121,24 @@ func (t *Tree) AddChild(r *hx.Rng, parent int) *Node {
 							tx = old
 							break
 						}
+					}
+				}
+				if tx == nil && t.Opts.WithContracts && r.Intn(3) == 0 {
+					var raw *types.Transaction
+					if len(t.Contracts) == 0 || r.Intn(3) == 0 {
+						raw = types.NewContractCreation(nonce, big.NewInt(0), 200000, big.NewInt(int64(1+r.Intn(5))), contractInit(byte(1+r.Intn(200))))
+						t.Contracts = append(t.Contracts, crypto.CreateAddress(t.Addrs[from], nonce))
+					} else {
+						// call (on branches where the contract does not exist this is a plain transfer with data)
+						data := make([]byte, 64)
+						data[31] = byte(r.Intn(4))
+						data[63] = byte(r.Intn(3)) // 0 deletes the slot
+						raw = types.NewTransaction(nonce, t.Contracts[r.Intn(len(t.Contracts))], big.NewInt(0), 100000, big.NewInt(int64(1+r.Intn(5))), data)
+					}
+					var err error
+					tx, err = types.SignTx(raw, t.Signer, t.Keys[from])
+					if err != nil {
+						panic(err)
 					}
 				}
 				if tx == nil {
